@@ -451,6 +451,22 @@ func pItems(tier string) []proto.Item {
 			items = append(items, proto.Item{Scn: s, Class: fmt.Sprintf("%s/destination-answer-in-the-poll-straddling-its-window/%dms", v, late/1000), Note: map[string]string{"want_len": "3"}})
 		}
 	}
+	// UDP over IPv6: the destination's (and the routers') ICMPv6 errors quote only part of the probe - the IPv6 header and
+	// 8, 16 or 13+k bytes behind it -; the per-probe identifier is the quoted header's payload-length FIELD, so the list
+	// still ends at the destination's lowest answer
+	for _, v := range proto.Variants {
+		if proto.Info(v).Kind != "udp6" {
+			continue
+		}
+		for _, cut := range []int{8, 15, 16, 20} {
+			s := proto.Scn{Variant: v, First: 1, Last: 6, Dest: 4, IPIDBase: 300, EchoBase: 31, TimeoutMs: 300, DelayMs: 10}
+			s.Hops = map[int]proto.HopSpec{2: {Form: fmt.Sprintf("teFull:q%d", cut)}}
+			for t := 4; t <= 6; t++ {
+				s.Hops[t] = proto.HopSpec{Form: fmt.Sprintf("duPort:q%d", cut)}
+			}
+			items = append(items, proto.Item{Scn: s, Class: fmt.Sprintf("%s/errors-quoting-%d-bytes-of-the-probe", v, cut), Note: map[string]string{"want_len": "4"}})
+		}
+	}
 	// ICMP: a stray echo reply from the target with the run's identifier and a sequence number of 256 + an already probed
 	// TTL (another pinger on the host shares the identifier): it is nobody's answer - the list runs on to the destination
 	for _, v := range []string{"icmp4", "icmp6"} {
